@@ -398,7 +398,7 @@ def gen_configs(ctx: Any) -> list[Cfg]:
                     auth=bool(i % 2), cors=bool((i // 2) % 2), prefix="/vgi" if i % 5 == 0 else "", pages=i % 7 != 0, health=i % 11 != 0,
                 )
             )
-    n_random = 100 if ctx.tier == "quick" else 600
+    n_random = 60 if ctx.tier == "quick" else 600
     for _ in range(n_random):
         out.append(
             Cfg(
@@ -592,7 +592,7 @@ def run(ctx: Any) -> None:
         repl = {"config": c.replay(), "route": label, "method": method, "path": path, "status": r.status_code, "capability_headers_seen": caps, "expected": want}
         for k in UNIVERSE:
             if k in want and k not in caps:
-                ctx.violation(f"missing:{k}:{_klass(label)}", f"{method} {path} ({label}, HTTP {r.status_code}) lacks {k} although its feature is configured", repl)
+                ctx.violation(f"missing-on:{_klass(label)}", f"{method} {path} ({label}, HTTP {r.status_code}) lacks {k} although its feature is configured", repl)
             elif k not in want and k in caps:
                 ctx.violation(f"unconfigured-present:{k}", f"{method} {path} ({label}) carries {k}={caps[k]!r} although its feature is not configured", repl)
             elif k in want and caps[k] != want[k]:
@@ -628,7 +628,8 @@ def run(ctx: Any) -> None:
             seen_labels.add(label)
             ctx.case([c.canon()[:14], label])
             ordered = check_response(c, label, method, path, r, want)
-            key = (ctag, "OPTIONS" if method == "OPTIONS" else "GET", r.status_code < 400)
+            mclass = "OPTIONS" if method == "OPTIONS" else "GET"
+            key = next((k for k in ((ctag, mclass, True), (ctag, mclass, False)) if k in model_cases), (ctag, mclass, r.status_code < 400))
             prev = model_cases.get(key)
             if prev is not None and prev[0] != ordered:
                 ctx.violation("routes-differ", "two responses of one app carry different capability headers", {"config": c.replay(), "a": prev[1], "b": {"route": label, "headers": ordered}})
@@ -687,7 +688,7 @@ def run(ctx: Any) -> None:
         rt_cases.append((_coq_cfg(c, zstd_rt), copt(_coq_caps(caps)), c.replay()))
 
     # ---- model correspondence: response headers ---------------------------------------------------------------
-    # One case per (configuration, OPTIONS or not, req_succeeded class).  The hand model and the regenerated terms
+    # One case per (configuration, OPTIONS or not); req_succeeded is that of the first response seen in the class.  The hand model and the regenerated terms
     # are executed in the same pass: the run function answers with the model's headers when both agree and with a
     # marker otherwise, so a disagreement of either with the implementation shows up as a mismatch.
     keys = list(model_cases)
@@ -801,6 +802,41 @@ def run(ctx: Any) -> None:
         "sticky TTLs are whole seconds (QUANTIFIER does not range over TTL values); fractional TTLs are recorded as notes",
         "float('inf')/nan TTLs make make_wsgi_app raise (no app, no responses): outside the model",
     ]
+
+
+def replay(ctx: Any, rec: dict[str, Any]) -> None:
+    """Re-run one recorded configuration (all its route kinds + the probe) against the tree under test."""
+    import falcon.testing
+    from vgi_rpc.http import http_capabilities
+    from vgi_rpc.http._testing import _SyncTestClient
+
+    cfgd = dict((rec.get("replay") or {}).get("config") or {})
+    if not cfgd:
+        ctx.obligation("replay:has-configuration", "harness", False, "the record carries no configuration (broken obligation without a failing input): run the whole check")
+        return
+    cfgd["echo"] = None if cfgd.get("echo") is None else tuple(cfgd["echo"].items())
+    c = Cfg(**cfgd)
+    zstd_rt = _zstd_runtime()
+    integral = float(c.ttl).is_integer()
+    want = expected_headers(c, zstd_rt) if integral else None
+    app, srv = build_app(c)
+    client = falcon.testing.TestClient(app)
+    for label, method, rpath, hdrs, body in routes(c, srv):
+        r = client.simulate_request(method, rpath, headers=hdrs, body=body, wsgierrors=_SINK)
+        ctx.case([c.canon()[:14], label])
+        got = {k.lower(): v for k, v in r.headers.items() if k.lower() in UNIVERSE}
+        verdict = "n/a (fractional TTL)" if want is None else ("ok" if got == want else "DIFFERS")
+        print(f"{label:28s} {method:7s} {rpath:40s} HTTP {r.status_code}  {verdict}  {got if verdict != 'ok' else ''}")
+        if verdict == "DIFFERS":
+            ctx.violation(str(rec.get("key") or "replay-differs"), f"{method} {rpath} ({label}): capability headers {got} differ from the configured {want}", {"config": c.replay(), "route": label})
+    caps = http_capabilities(client=_SyncTestClient(app, prefix=c.prefix))
+    print("expected headers:", want)
+    print("probe           :", caps)
+    if integral and (caps.max_request_bytes, caps.max_response_bytes, caps.max_externalized_response_bytes, caps.externalization_enabled, caps.upload_url_support,
+                     caps.max_upload_bytes, caps.sticky_enabled, caps.sticky_default_ttl, caps.sticky_echo_headers) != (
+        c.max_request, c.max_response, c.max_ext, c.ext == "storage", c.provider, c.max_upload if c.provider else None, c.sticky,
+        int(c.ttl) if c.sticky else None, tuple(k for k, _ in (c.echo or ())) if c.sticky else ()):
+        ctx.violation(str(rec.get("key") or "replay-differs"), "http_capabilities() does not read the configuration back", {"config": c.replay(), "caps": repr(caps)})
 
 
 def _klass(label: str) -> str:
